@@ -34,6 +34,18 @@ def run(prop, wd, thorough):
              and a not in ('Drop', 'RunEndThenAcquire', 'Next')]
     if never:
         die_tool('NucleoMC.tla: actions never taken in the bounded model (vacuity): %s' % never)
+    # beyond the exhaustive instances: random behaviours of a larger instance (3 entries, 2 streams, 4 ticks, 2 edits)
+    scfg = os.path.join(wd, 'NucleoSim.cfg')
+    open(scfg, 'w').write('SPECIFICATION Spec\nCONSTANTS N = 3\n MaxStreams = 2\n MaxTicks = 4\n MaxEdits = 2\n SortInflight = TRUE\n Pats = {0, 1, 2, 3}\n Appendable = {0, 1, 2, 3}\nINVARIANTS %s\nCHECK_DEADLOCK FALSE\n'
+                          % ' '.join(INVS[prop]))
+    rc3, out3 = tlc('NucleoMC.tla', cfg=scfg, workers=NCPU, timeout=3000, xmx='8g', extra=['-simulate', 'num=%d' % (100000 if thorough else 4000), '-depth', '300'])
+    m3 = None
+    for m3 in re.finditer(r'Progress: (\d+) states checked, (\d+) traces generated', out3):
+        pass
+    if tlc_failed(rc3, out3) or 'is violated' in out3 or m3 is None:
+        die_tool('NucleoMC.tla (simulation of the larger instance): invariant violated or TLC failed (oracle defect, not a verdict)\n' + out3[-3000:])
+    sim = {'protocol_model_simulated_instance': {'N': 3, 'MaxStreams': 2, 'MaxTicks': 4, 'MaxEdits': 2},
+           'protocol_model_simulated_states': int(m3.group(1)), 'protocol_model_simulated_behaviours': int(m3.group(2))}
     live = {}
     if prop == 'C13':
         # the temporal form on a small instance: under weak fairness of worker, closure tails, injectors and the
@@ -47,6 +59,7 @@ def run(prop, wd, thorough):
             die_tool('NucleoLive.tla: the liveness form of C13 fails on the protocol model or TLC did not finish (oracle defect, not a verdict)\n' + out2[-3000:])
         live = {'protocol_model_liveness': 'EventuallyNotified (Waiting ~> notified) under weak fairness: holds', 'protocol_model_liveness_states': st2['distinct']}
         st = dict(st, distinct=st['distinct'] + st2['distinct'], generated=st['generated'] + st2['generated'])
+    live.update(sim)
     return dict(live, **{'protocol_model_states': st['distinct'], 'protocol_model_transitions': st['generated'], 'protocol_model_depth': st['depth'],
             'protocol_model_constants': {'N': 2, 'MaxStreams': streams, 'MaxTicks': ticks, 'MaxEdits': edits},
             'protocol_model_invariants': INVS[prop],
